@@ -17,6 +17,8 @@ import Exetera.Gen.Constants
   * The streamed generators are `Join.streamed` (C03), the column mappers `MapValid.*` (C04) — reused, not duplicated.
   * `pandas.merge` is a parameter: a function returning the list of (left row | NaN, right row | NaN) pairs in pandas' order.
   * The destination frame is assumed empty on entry; creating a field whose name exists is the `ValueError` of `create_like`.
+  * Fix NC02b is modelled: `merge` computes every destination name up front (`allDestNames`: the four names it reserves for
+    fields of its own plus the suffixed names of the mapped fields) and raises `ValueError` on a clash, before either path runs.
 -/
 namespace Exetera.Merge
 
